@@ -21,6 +21,7 @@ import (
 // (tie 1 of DESIGN.md: theorems are proved against these regenerated definitions).
 func TestVerifGenRoot(t *testing.T) {
 	var b strings.Builder
+	b.WriteString("(*@@ Generated *)\n")
 	def := func(name string, v any) { fmt.Fprintf(&b, "Definition %s : N := %v.\n", name, v) }
 	def("g_default_replay_window", defaultReplayProtectionWindow)
 	def("g_max_queue", maxAppDataPacketQueueSize)
@@ -109,7 +110,13 @@ func TestVerifGenRoot(t *testing.T) {
 	def("g_kx_ecdhe", int(ciphersuite.KeyExchangeAlgorithmEcdhe))
 
 	if p := os.Getenv("VERIF_OUT"); p != "" {
-		if err := os.WriteFile(p, []byte(b.String()), 0o600); err != nil {
+		// several dumpers of one package share the output file: append
+		f, err := os.OpenFile(p, os.O_CREATE|os.O_WRONLY|os.O_APPEND, 0o600)
+		if err != nil {
+			t.Fatal(err)
+		}
+		defer f.Close() //nolint:errcheck
+		if _, err := f.WriteString(b.String()); err != nil {
 			t.Fatal(err)
 		}
 	}
